@@ -61,3 +61,9 @@ func LegacyValid(a []byte) bool {
 	}
 	return true
 }
+
+// LegacyChecksum: last four bytes of SHA-256 over the first 35 bytes.
+func LegacyChecksum(prefix35 []byte) []byte {
+	c := sha256.Sum256(prefix35[:35])
+	return append([]byte(nil), c[28:]...)
+}
